@@ -1,6 +1,7 @@
 package rules
 
 import (
+	"go/constant"
 	"go/token"
 	"go/types"
 	"strings"
@@ -85,6 +86,14 @@ func NewRoles(p *load.Program) *Roles {
 		}
 	}
 	return r
+}
+
+// DefaultActionValue returns the value of the exported constant DefaultAction ("" if absent).
+func (r *Roles) DefaultActionValue() string {
+	if c, ok := r.P.Types.Scope().Lookup("DefaultAction").(*types.Const); ok && c.Val().Kind() == constant.String {
+		return constant.StringVal(c.Val())
+	}
+	return ""
 }
 
 // sigMatches compares two signatures ignoring receivers.
